@@ -10,6 +10,7 @@ import Driver.Bcodec
 import Driver.Meta
 import Driver.Mi
 import Driver.Tr
+import Driver.Tr19
 open Driver
 
 def dispatch (line : String) : Verdict :=
@@ -21,6 +22,7 @@ def dispatch (line : String) : Verdict :=
   | "C05" :: args => c05 args r
   | "C17" :: args => c17 args r
   | "C18" :: args => c18 args r
+  | "C19" :: args => c19 args r
   | "C06" :: "hand" :: args => handVerdict "C06" ("hand" :: args) r
   | "C06" :: args => c06 args r
   | "C07" :: args => c07 args r
